@@ -736,6 +736,12 @@ func (obj *SparseInt8VectorJointIterator) Ok() bool {
          !(obj.s2 == nil || obj.s2.GetInt8() == int8(0))
 }
 func (obj *SparseInt8VectorJointIterator) Next() {
+  // skip positions where all operands are zero; stop when all
+  // iterators are exhausted
+  for obj.next() && !obj.Ok() {
+  }
+}
+func (obj *SparseInt8VectorJointIterator) next() bool {
   ok1 := obj.it1.Ok()
   ok2 := obj.it2.Ok()
   obj.s1.ptr = nil
@@ -762,6 +768,7 @@ func (obj *SparseInt8VectorJointIterator) Next() {
   } else {
     obj.s2 = ConstInt8(0.0)
   }
+  return ok1 || ok2
 }
 func (obj *SparseInt8VectorJointIterator) Get() (Scalar, ConstScalar) {
   if obj.s1.ptr == nil {
@@ -815,6 +822,12 @@ func (obj *SparseInt8VectorJoint3Iterator) Ok() bool {
          !(obj.s3 == nil || obj.s3.GetInt8() == int8(0))
 }
 func (obj *SparseInt8VectorJoint3Iterator) Next() {
+  // skip positions where all operands are zero; stop when all
+  // iterators are exhausted
+  for obj.next() && !obj.Ok() {
+  }
+}
+func (obj *SparseInt8VectorJoint3Iterator) next() bool {
   ok1 := obj.it1.Ok()
   ok2 := obj.it2.Ok()
   ok3 := obj.it3.Ok()
@@ -861,6 +874,7 @@ func (obj *SparseInt8VectorJoint3Iterator) Next() {
   } else {
     obj.s3 = ConstInt8(0.0)
   }
+  return ok1 || ok2 || ok3
 }
 func (obj *SparseInt8VectorJoint3Iterator) Get() (Scalar, ConstScalar, ConstScalar) {
   if obj.s1.ptr == nil {
